@@ -78,17 +78,40 @@ theorem no_panic_seq (seq : Bytes) (ctx : Nat) (h : seq.length < I32LIM) :
    scanCtx_np seq ctx h, rawValue_np seq h, elements_item_np seq h, tlvElements_item_np seq h⟩
 
 /-- the public accessors added to the model after the audit: `TLVElement::tlv()` (= `tag()` then `value()`),
-`total_len()` (the public wrapper of `container_len`), and the control flow of `Display` / `Debug`
-(`TLVElement::fmt`, **recursive**): a result or `fmt::Error`, never a panic — in particular its
-`unreachable!()` is unreachable — and the recursion is at most `len + 1` deep (`fmtOf` runs on that fuel;
-`.panic .fuel` would be a deeper recursion); `seqFmtOf` = `Display` / `Debug` of a `TLVSequence` / `TLVSequenceIter`.
-Stack consumption per level is outside the model. -/
+`total_len()` (the public wrapper of `container_len`), and the control flow of `Display` / `Debug` of an element
+(`TLVElement::fmt`, recursive, `fmtOf`) and of a `TLVSequence` / `TLVSequenceIter` (`seqFmtOf`): a result or
+`fmt::Error`, never a panic — in particular the `unreachable!()` is unreachable.  Since the fix
+`C16-fmt-recursion-stack` the descent is capped: `fmtOf = fmtAt MAX_FMT_DEPTH`, where `fmtAt rem` is defined by
+**structural recursion on the remaining depth budget** (no fuel): at most `MAX_FMT_DEPTH + 1 = 17` nested calls
+for EVERY input, i.e. a constant stack need (17 × ≈ 450 bytes on x86_64) instead of one frame per nesting level. -/
 theorem no_panic_extra (bs : Bytes) (h : bs.length < I32LIM) :
-    NP (tlvOf bs) ∧ NP (totalLen bs) ∧ NP (fmtOf (bs.length + 1) bs) ∧ NP (seqFmtOf bs) :=
-  ⟨tlvOf_np bs h, totalLen_np bs h, fmtOf_np _ bs (Nat.lt_succ_self _) h, seqFmtOf_np bs h⟩
+    NP (tlvOf bs) ∧ NP (totalLen bs) ∧ NP (fmtOf bs) ∧ NP (seqFmtOf bs) ∧ (∀ rem, NP (fmtAt rem bs)) :=
+  ⟨tlvOf_np bs h, totalLen_np bs h, fmtOf_np bs h, seqFmtOf_np bs h, fun rem => fmtAt_np rem bs h⟩
 
-example : fmtOf 6 [0x15, 0x24, 0x01, 0x05, 0x18] = .ok () ∧ fmtOf 2 [0x18] = .err .mismatch ∧
-    fmtOf 4 [0x15, 0x24, 0x01] = .err .mismatch := by decide
+example : fmtOf [0x15, 0x24, 0x01, 0x05, 0x18] = .ok () ∧ fmtOf [0x18] = .err .mismatch ∧
+    fmtOf [0x15, 0x24, 0x01] = .err .mismatch ∧ Consts.tlvMaxFmtDepth = 16 := by decide
+
+/-- **The cap changes nothing on inputs nested at most `rem + 1` containers deep**: whenever the uncapped
+formatter of the tree before the fix (`Old.fmtOf`, on fuel) gets along with `rem + 1` levels of recursion, the
+capped one with budget `rem` returns the same result (same error on malformed input).  With
+`rem = MAX_FMT_DEPTH = 16`: identical behaviour on every element nested at most 17 deep. -/
+theorem fmt_cap_transparent (rem : Nat) (bs : Bytes) (h : Old.fmtOf (rem + 1) bs ≠ .panic .fuel) :
+    fmtAt rem bs = Old.fmtOf (rem + 1) bs :=
+  fmtAt_eq_old rem bs h
+
+/-- … while the uncapped formatter needed a recursion depth (fuel) that grows with the input: `len + 1` is
+enough, and a depth below the nesting is not (next `example`) — the defect `C16-fmt-recursion-stack` -/
+theorem fmt_uncapped_needs_depth (bs : Bytes) (h : bs.length < I32LIM) : NP (Old.fmtOf (bs.length + 1) bs) :=
+  Old.fmtOf_np _ bs (Nat.lt_succ_self _) h
+
+-- three nested structures: the uncapped formatter needs 3 levels (fuel 2 is exhausted), a budget of 1
+-- formats two levels and elides the content of the second; with enough budget both agree (hypothesis and
+-- conclusion of `fmt_cap_transparent` at `rem = 2`)
+example : Old.fmtOf 2 [0x15, 0x15, 0x15, 0x18, 0x18, 0x18] = .panic .fuel ∧
+    fmtAt 1 [0x15, 0x15, 0x15, 0x18, 0x18, 0x18] = .ok () ∧
+    Old.fmtOf 3 [0x15, 0x15, 0x15, 0x18, 0x18, 0x18] = .ok () ∧
+    Old.fmtOf 3 [0x15, 0x15, 0x15, 0x18, 0x18, 0x18] ≠ .panic .fuel ∧
+    fmtAt 2 [0x15, 0x15, 0x15, 0x18, 0x18, 0x18] = .ok () := by decide
 
 /-- one step of the counter: at `level = i32::MAX` one more container start overflows the `i32`
 (debug / overflow-checks build: `attempt to add with overflow`), for every tag form and container kind; at
